@@ -36,7 +36,7 @@ import (
 )
 
 type defaultsScenario struct {
-	Mode string `json:"mode"` // tokens | maxsize
+	Mode string `json:"mode"` // tokens | source | maxsize
 	Kind string `json:"kind,omitempty"`
 	N    int    `json:"n,omitempty"`
 	Max  int    `json:"max,omitempty"`  // maxsize: the client's maximum message size
@@ -44,6 +44,43 @@ type defaultsScenario struct {
 }
 
 func execDefaultsOnce(sc defaultsScenario) *evid.Failure {
+	if sc.Mode == "source" {
+		// the default token source itself, over as many draws as a connection makes in hours:
+		// N tokens drawn by 1-4 goroutines, all 8 bytes long and pairwise distinct (64 random
+		// bits: a repetition among 10^5 draws has probability below 10^-9)
+		workers := 1 + sc.Max%4
+		out := make([][]message.Token, workers)
+		var wg sync.WaitGroup
+		for w := 0; w < workers; w++ {
+			wg.Add(1)
+			go func(w int) {
+				defer wg.Done()
+				for i := 0; i < sc.N/workers; i++ {
+					tk, err := message.GetToken()
+					if err != nil {
+						return
+					}
+					out[w] = append(out[w], tk)
+				}
+			}(w)
+		}
+		wg.Wait()
+		seen := map[string]int{}
+		n := 0
+		for _, ts := range out {
+			for _, tk := range ts {
+				n++
+				if len(tk) != 8 {
+					return evid.Failf("defaults/token-length", sc, "draw %d of the default token source has %d bytes (%x), it yields 8 random bytes", n, len(tk), []byte(tk))
+				}
+				if first, ok := seen[string(tk)]; ok {
+					return evid.Failf("defaults/token-repeated", sc, "the default token source returned %x twice (draws %d and %d of %d)", []byte(tk), first, n, sc.N)
+				}
+				seen[string(tk)] = n
+			}
+		}
+		return nil
+	}
 	if sc.Mode == "tokens" {
 		var mu sync.Mutex
 		var tokens [][]byte
@@ -124,6 +161,9 @@ func defaultsEngine(r *evid.Run) evid.Engine {
 		if rapid.IntRange(0, 2).Draw(t, "mode") == 0 {
 			max := rapid.SampledFrom([]int{200, 600, 1100, 1152}).Draw(t, "max")
 			return defaultsScenario{Mode: "maxsize", Max: max, Body: max + rapid.SampledFrom([]int{-40, -1, 1, 50, 200}).Draw(t, "over")}
+		}
+		if rapid.Bool().Draw(t, "source") {
+			return defaultsScenario{Mode: "source", N: rapid.SampledFrom([]int{600, 5000, 100000}).Draw(t, "draws"), Max: rapid.IntRange(0, 3).Draw(t, "workers")}
 		}
 		return defaultsScenario{Mode: "tokens", Kind: rapid.SampledFrom([]string{"udp", "dtls", "tcp", "tls"}).Draw(t, "kind"), N: rapid.IntRange(20, 60).Draw(t, "n")}
 	}, func(sc defaultsScenario) *evid.Failure {
